@@ -788,8 +788,12 @@ class FileAudit:
             return
         if isinstance(stmt, (ast.For, ast.AsyncFor)):
             self.store(stmt.target, info, func, live, stmt)
-            self.loop_over(stmt.iter, info, func, live, 'SinkOrdered')
-            self.visit_expr(stmt.iter, info, func, live, skip_loop=True)
+            if not self.display_loop(stmt.target, stmt.iter, info, func,
+                                     live):
+                sink = 'SinkInsensitive' if self.commutative_body(stmt) \
+                    else 'SinkOrdered'
+                self.loop_over(stmt.iter, info, func, live, sink)
+                self.visit_expr(stmt.iter, info, func, live, skip_loop=True)
             self.visit_body(stmt.body, info, func, main_block)
             self.visit_body(stmt.orelse, info, func, main_block)
             return
@@ -973,6 +977,125 @@ class FileAudit:
             return
         self.emit(func, text_of(tgt), 'CUnknown', live)
 
+    # ---- loops whose body commutes ----
+    @staticmethod
+    def commutative_body(stmt):
+        '''``for x in S:`` whose body is nothing but ``del d[x]`` /
+        ``d.pop(x[, default])`` / ``s.discard(x)`` / ``s.remove(x)`` /
+        ``s.add(x)`` on containers named by plain local names other than the
+        iterated expression: for the distinct elements of a set these
+        operations commute, so the final state does not depend on the order
+        (C18_remove_keys_order_irrelevant is the Coq statement for `del`).'''
+        if not isinstance(stmt.target, ast.Name) or stmt.orelse \
+                or not stmt.body:
+            return False
+        var = stmt.target.id
+        iter_names = {n.id for n in ast.walk(stmt.iter)
+                      if isinstance(n, ast.Name)}
+
+        def is_var(node):
+            return isinstance(node, ast.Name) and node.id == var
+
+        for sub in stmt.body:
+            if isinstance(sub, ast.Delete):
+                for tgt in sub.targets:
+                    if not (isinstance(tgt, ast.Subscript)
+                            and isinstance(tgt.value, ast.Name)
+                            and tgt.value.id not in iter_names
+                            and tgt.value.id != var and is_var(tgt.slice)):
+                        return False
+                continue
+            if isinstance(sub, ast.Expr) and isinstance(sub.value, ast.Call):
+                call = sub.value
+                if isinstance(call.func, ast.Attribute) \
+                        and call.func.attr in ('discard', 'remove', 'add',
+                                               'pop') \
+                        and isinstance(call.func.value, ast.Name) \
+                        and call.func.value.id not in iter_names \
+                        and call.func.value.id != var \
+                        and call.args and is_var(call.args[0]) \
+                        and not call.keywords \
+                        and len(call.args) <= (2 if call.func.attr == 'pop'
+                                               else 1) \
+                        and all(isinstance(a, ast.Constant)
+                                for a in call.args[1:]):
+                    continue
+            return False
+        return True
+
+    # ---- a literal tuple/list of sets used ONLY as the iterable of a loop ----
+    def display_loop(self, target, iterable, info, func, live):
+        '''``for x in (s1, s2):`` / ``for k, x in ((a, s1), (b, s2)):`` where
+        some s_i are set-valued.  The display is anonymous (it cannot be
+        reached from anywhere else), its own order is the textual order, and
+        the sets it holds are reachable only through the loop variable at the
+        matching position: that variable is made set-valued (one step, joined
+        element kind) and every use of it is then judged by the ordinary rules
+        (sorted / len / truth / membership are order-insensitive, anything else
+        is reported).  Any other shape (nesting, starred elements, arity
+        mismatch, non-name targets at a set position) is NOT handled here and
+        falls back to the fail-closed CSetEscape.  Returns True when handled.'''
+        if not isinstance(iterable, (ast.Tuple, ast.List)) or not iterable.elts:
+            return False
+        elts = iterable.elts
+        if any(isinstance(e, ast.Starred) for e in elts):
+            return False
+        tracked = {}        # target name -> kind
+        leaves = []         # expressions still to be visited
+        if isinstance(target, ast.Name):
+            kinds = [self.set_kind(info, e) for e in elts]
+            if all(k is None for k in kinds):
+                return False
+            if any(isinstance(e, (ast.Tuple, ast.List, ast.Dict)) for e in elts):
+                return False
+            kind = 'KEmpty'
+            for k in kinds:
+                if k is not None:
+                    kind = kjoin(kind, k)
+            tracked[target.id] = kind
+            leaves = list(elts)
+        elif isinstance(target, (ast.Tuple, ast.List)):
+            arity = len(target.elts)
+            if not all(isinstance(e, (ast.Tuple, ast.List))
+                       and len(e.elts) == arity
+                       and not any(isinstance(x, ast.Starred) for x in e.elts)
+                       for e in elts):
+                return False
+            found = False
+            for j, tgt in enumerate(target.elts):
+                column = [e.elts[j] for e in elts]
+                kinds = [self.set_kind(info, x) for x in column]
+                if any(isinstance(x, (ast.Tuple, ast.List, ast.Dict))
+                       and any(self.set_kind(info, y) is not None
+                               for y in ast.walk(x)
+                               if isinstance(y, ast.expr) and y is not x)
+                       for x in column):
+                    return False        # a set nested deeper: not handled
+                if all(k is None for k in kinds):
+                    continue
+                if not isinstance(tgt, ast.Name):
+                    return False
+                kind = 'KEmpty'
+                for k in kinds:
+                    if k is not None:
+                        kind = kjoin(kind, k)
+                tracked[tgt.id] = kind
+                found = True
+            if not found:
+                return False
+            leaves = [x for e in elts for x in e.elts]
+        else:
+            return False
+        for name, kind in tracked.items():
+            if name in info.globals_decl:
+                return False
+            info.set_locals[name] = kjoin(info.set_locals.get(name, 'KEmpty'),
+                                          kind)
+        for leaf in leaves:
+            self.visit_expr(leaf, info, func, live)
+        self.count('display-loop')
+        return True
+
     # ---- set uses ----
     def loop_over(self, iterable, info, func, live, sink):
         '''`iterable` is iterated in order: report it when set-valued.'''
@@ -1032,13 +1155,16 @@ class FileAudit:
             sub.self_name, sub.cls_name = info.self_name, info.cls_name
             sub.globals_decl = info.globals_decl
             for gen in node.generators:
-                self.loop_over(gen.iter, sub, func, live, sink)
-                self.visit_expr(gen.iter, sub, func, live, skip_loop=True)
                 names = set()
                 bound_names(gen.target, names)
                 sub.locals |= names
                 for name in names:
                     sub.set_locals.pop(name, None)
+                if not self.display_loop(gen.target, gen.iter, sub, func,
+                                         live):
+                    self.loop_over(gen.iter, sub, func, live, sink)
+                    self.visit_expr(gen.iter, sub, func, live,
+                                    skip_loop=True)
                 for cond in gen.ifs:
                     self.visit_expr(cond, sub, func, live)
             if isinstance(node, ast.DictComp):
